@@ -15,6 +15,7 @@ pub mod c14;
 pub mod c15;
 pub mod c16;
 pub mod c17;
+pub mod c18;
 pub mod c20;
 
 use crate::engine::Tier;
@@ -44,6 +45,7 @@ pub fn dispatch(id: &str, args: Args) -> ! {
         "C15" => c15::run(args),
         "C16" => c16::run(args),
         "C17" => c17::run(args),
+        "C18" => c18::run(args),
         "C20" => c20::run(args),
         _ => crate::engine::fault(&format!("unknown property {id}")),
     }
